@@ -291,7 +291,9 @@ func (r *run) arm(st *simkit.Step) {
 	case "remove_error":
 		r.disk.Arm("remove_error", st.FaultAt)
 	case "ewl_get_error":
-		r.ewl.Arm("get_error", st.FaultAt)
+		// every read of the spill DB fails for the duration of the step: ShouldKeepHash visits the waiting-list
+		// entries in Go map order, so "only the n-th read" would not replay
+		r.ewl.ArmAll("get_error")
 	}
 }
 
